@@ -369,7 +369,25 @@ def enum_stuck(tier):
       yield {'g': name, 'n': n, 'k': k, 'm': n * 4099 + idx}
 
 
+# ------------------------------------------------------------------ arm: neighbouring sizes with one seed
+
+def enum_neighbour_sizes(tier):
+  """For every generator: one seed, the sizes n0..n0+w in ascending, descending and a scrambled order, each
+  size requested twice in the whole history. A buffer that is reused between calls of one instance (same
+  seed, same number of bytes / words) and masked in place shows up as a determinism violation."""
+  names = rng.RngNames()
+  bases = (1, 9, 57, 121) if tier == 'quick' else (1, 9, 17, 57, 121, 249, 505, 1017, 2041)
+  for gi, name in enumerate(names):
+    for bi, n0 in enumerate(bases):
+      ns = list(range(n0, n0 + 9))
+      seed = 23482349 + 1000003 * gi + 7919 * bi
+      scr = [ns[(5 * i + 3) % len(ns)] for i in range(len(ns))]
+      for order in (ns + ns[::-1], ns[::-1] + ns, scr + ns, ns + scr):
+        yield [[name, n, seed] for n in order]
+
+
 ARMS = [
+    Arm('neighbour_sizes', run_history, enumerate=enum_neighbour_sizes, budget=(200, 1500)),
     Arm('history', run_history, strategy=strat_history, quick=8000, thorough=400000,
         budget=(150, 1500),
         doc='model-based call histories over the whole registry: range, determinism across '
